@@ -162,10 +162,17 @@ func run(c *vkit.Collector, rng *vkit.Rng, budget int) {
 	o := &oracle{dir: outDir(), max: 25 * budget}
 	corrConsts(c)
 	corrProjections(c, rng, budget)
-	corrTessellation(c, rng, budget)
+	// a wrong wrapDestination makes the tessellator recurse without end (Go stack overflow): check it first
+	wrapOK := searchWrap(c, rng, budget)
+	if wrapOK {
+		corrTessellation(c, rng, budget)
+	}
 	corrSubsample(c, rng, budget)
+	corrSubsampleClamp(c, rng, budget)
 	corrSnap(c, rng, budget)
-	searchTessellation(c, rng, budget, o)
+	if wrapOK {
+		searchTessellation(c, rng, budget, o)
+	}
 	searchRoundTrip(c, rng, budget, o)
 	searchSubsample(c, rng, budget, o)
 	searchSnap(c, rng, budget, o)
@@ -328,6 +335,27 @@ func corrSubsample(c *vkit.Collector, rng *vkit.Rng, budget int) {
 			c.Check("frame "+key, fmt.Sprintf("(fbiteq (r3_Vector_Dot (s2_Point_Vector (frame_col0 %s)) (s2_Point_Vector %s)) %s && fbiteq (r3_Vector_Dot (s2_Point_Vector (frame_col1 %s)) (s2_Point_Vector %s)) %s)",
 				ptTerm(pl[i0]), ptTerm(pl[i0+1]), vkit.F(dx), ptTerm(pl[i0]), ptTerm(pl[i0+1]), vkit.F(dy)))
 		}
+	}
+}
+
+// negative tolerances must behave exactly like tolerance 0 (the clamp): visible on repeated vertices,
+// where tolerance 0 keeps the one-point wedge and a negative tolerance would empty it
+func corrSubsampleClamp(c *vkit.Collector, rng *vkit.Rng, budget int) {
+	for k := 0; k < 30*budget; k++ {
+		a := randPoint(rng)
+		b := nearPoint(rng, a, math.Pow(10, -rng.Range(0.5, 4)))
+		d := nearPoint(rng, b, math.Pow(10, -rng.Range(0.5, 4)))
+		pls := []s2.Polyline{{a, b, b}, {a, b, b, d}, {a, a, b, b, d, d}, {a, b, b, b, a}, {a, b, d, d, b}}
+		pl := pls[rng.Intn(len(pls))]
+		tol := rng.Pick([]float64{-1, -1e-9, -1e-3, -1e-300, math.Copysign(0, -1), 0, -0.5, math.Inf(-1)})
+		idx := pl.SubsampleVertices(s1.Angle(tol))
+		idx0 := pl.SubsampleVertices(0)
+		c.Class("polyline:repeated-vertex/negative-tolerance")
+		c.Eval(fmt.Sprintf("clamp:%d:%g:%d", len(pl), tol, k), true)
+		if fmt.Sprint(idx) != fmt.Sprint(idx0) {
+			c.Violate("Polyline.SubsampleVertices.clamp", fmt.Sprintf("tolerance %g gives %v, tolerance 0 gives %v", tol, idx, idx0), map[string]interface{}{"polyline": pl, "tolerance": tol})
+		}
+		c.Check(fmt.Sprintf("SubsampleVertices(clamp) tol=%g #%d", tol, k), someEq("Z.eqb", vkit.App("SubsampleVertices", ptList(pl), vkit.F(tol)), zList(idx)))
 	}
 }
 
